@@ -1,14 +1,26 @@
 /-
   Well-typedness of everything `createNode` builds (helper definitions and lemmas for the
-  C01 / C02 property theorems).
+  C01 / C02 property theorems; everything lives in `namespace GEVerif.WellTyped`).
 
+  Definitions
   * `tyWF`      — a type expression is well-formed: every refinement sits on the base type it
-                  refines, `strSize` alphabets are lists of one-character strings, the element type
-                  of a size-refined list carries no exposed dependent refinement.
+                  generates values of (`annOK`), `strSize` alphabets are lists of one-character
+                  strings, the element type of a size-refined list carries no exposed dependent
+                  refinement (`noDeps`).
+  * `mhOK`      — the part of `tyWF` that concerns the refinement alone (`strSize` alphabets).
   * `depsOK`    — the sibling values a dependent LIST-SIZE refinement reads are not negative.
-  * `fieldsWF`  — the static counterpart of `depsOK` for the fields of a class.
+  * `fieldsWF`  — `tyWF` of every field + the static counterpart of `depsOK` (`sizeDepsOK`).
   * `grammarWF` — the decidable well-formedness condition on an analysed grammar.
-  * `validate`  — the metahandlers' own `validate` methods.
+  * `validate`  — the metahandlers' own `validate` methods (IntervalRange as repaired).
+  * `Op`, `stepOp`, `runOps` — sequences of create / map / mutate / crossover / select operations.
+  * `siblings`  — the earlier siblings (declared name, actual value) of a field position.
+
+  Main lemmas
+  * `createOK`        — mutual induction on fuel over `createNode` / `createAbstract` /
+                        `createFields` / `createElems` / `createTuple`.
+  * `gen_sat_nodep`, `gen_sat`, `resolveDep_spec` — what each refinement's generator produces.
+  * `sub_wt`, `sub_selfWt`, `occurrences_wt` — sub-values of well-typed values.
+  * `mutateRoot_wt`, `treeCrossover_wt`, `runOps_wt` — variation operators.
 -/
 import GEVerif.Lemmas.SynM
 import GEVerif.Model.Labels
